@@ -30,7 +30,13 @@ def tie2(theorems, sources, creg=False):
             "audit": ["Qvnt/Audit/GenRegs2.lean"] + (["Qvnt/Audit/GenRegs3.lean"] if creg else []), "sources": sources}
 
 
-TB_TIE2 = "translator tools/rs2lean2.py (collection-level Rust subset: iterator pipelines over Vec/VecDeque as lists, &mut methods as state-passing functions, loops with fuel, Option for unwrap/unreachable, `match self.th` reduced to the sequential arm after checking that the parallel arm is its rayon twin, random draws as inputs; regenerates Generated/Regs.lean from src/register/quant.rs, src/operator/{single,multi}/mod.rs, src/operator/multi/h.rs, src/operator/mod.rs and src/operator/single/{pauli,rotate,swap}.rs (public constructors), src/math/bits_iter.rs, src/register/{class,virtl}.rs, src/qasm/int/ext_op.rs on every run; Lemmas/GenRegs2.lean proves every translated function equal to the model definition) - the translator and the dozen list combinators of Model/RustStd.lean are trusted, the output is not"
+def tie3(theorems, sources):
+    """interpreter functions of qasm/int/mod.rs (tools/rs2lean2.py), equalities in Lemmas/GenInt.lean"""
+    return {"translator": "rs2lean2", "modules": ["Qvnt.Lemmas.GenInt"], "theorems": theorems,
+            "audit": "Qvnt/Audit/GenInt.lean", "sources": sources}
+
+
+TB_TIE2 = "translator tools/rs2lean2.py (collection-level Rust subset: iterator pipelines over Vec/VecDeque as lists, &mut methods as state-passing functions, loops with fuel, Option for unwrap/unreachable, `match self.th` reduced to the sequential arm after checking that the parallel arm is its rayon twin, random draws as inputs; regenerates Generated/Regs.lean from src/register/quant.rs, src/operator/{single,multi}/mod.rs, src/operator/multi/h.rs, src/operator/mod.rs and src/operator/single/{pauli,rotate,swap}.rs (public constructors), src/math/bits_iter.rs, src/register/{class,virtl}.rs, src/operator/multi/qft.rs, src/qasm/int/ext_op.rs, src/qasm/sym.rs and the declaration / argument-resolution / measure / reset / append functions of src/qasm/int/mod.rs (Result as Except) on every run; Lemmas/GenRegs2.lean, GenRegs3.lean, GenInt.lean prove every translated function equal to the model definition) - the translator and the dozen list combinators of Model/RustStd.lean are trusted, the output is not"
 TB_TIE_REG = "translator tools/rs2lean.py (straight-line Rust subset -> Lean; regenerates the classical-register functions of src/register/class.rs on every run; Lemmas/GenRegs.lean proves each equal to the model's CReg function) - the translator itself is trusted, its output is not"
 TB_TIE = "translator tools/rs2lean.py (straight-line Rust subset -> Lean; regenerates Generated/Kernels.lean from the current src/operator/atomic/*.rs, math/mod.rs, dispatch.rs on every run; Lemmas/GenKernels.lean proves each translated function equal to the model definition over any commutative ring) - the translator itself is trusted, its output is not"
 
@@ -106,7 +112,7 @@ PROPS = {
     },
     "C11": {
         "modules": ["Qvnt.Props.C11"],
-        "tie": [tie(r"creg_(set|xor|reset|get)_eq|notW_eq", modules=("Qvnt.Lemmas.GenRegs",), audit="Qvnt/Audit/GenRegs.lean", sources=r"UNSUPPORTED class\.rs"), tie2(r"creg_get_by_mask_eq|quant_(reset_by_mask|measure_mask|reset)_eq|bitsList_eq|sym_(finish|step|reset)_eq|store_(set|xor)_eq|finish_as_foldlM|mstep_inv", r"UNSUPPORTED (quant\.rs: register/quant\.rs::(reset_by_mask|measure_mask|reset):|class\.rs|bits_iter\.rs|sym\.rs)", creg=True), tie2(r"extop_(push|append)_eq", r"UNSUPPORTED ext_op\.rs")],
+        "tie": [tie(r"creg_(set|xor|reset|get)_eq|notW_eq", modules=("Qvnt.Lemmas.GenRegs",), audit="Qvnt/Audit/GenRegs.lean", sources=r"UNSUPPORTED class\.rs"), tie2(r"creg_get_by_mask_eq|quant_(reset_by_mask|measure_mask|reset)_eq|bitsList_eq|sym_(finish|step|reset)_eq|store_(set|xor)_eq|finish_as_foldlM|mstep_inv", r"UNSUPPORTED (quant\.rs: register/quant\.rs::(reset_by_mask|measure_mask|reset):|class\.rs|bits_iter\.rs|sym\.rs)", creg=True), tie2(r"extop_(push|append)_eq", r"UNSUPPORTED ext_op\.rs"), tie3(r"int_process_(measure|reset|barrier)_eq|int_branch(_with_id)?_eq|int_xor_eq|int_get_[qc]_idx_eq", r"UNSUPPORTED mod\.rs: qasm/int/mod\.rs::(process_(measure|reset|barrier)|branch|branch_with_id|xor|get_[qc]_idx_with_context|get_idx_by_alias):")],
         "suites": [suite("intnu", dict(count=600), dict(count=20000))],
         "mismatch_tags": INT_STRUCT,
         "spec_tags": [r"refsem\.(psi|creg|run)", r"c11\..*", r"iexpect\.accept"],
@@ -114,7 +120,7 @@ PROPS = {
         "assumptions": ASSUME_COMMON + ["measurement outcomes are inputs (the implementation's draw log); declared register sizes are positive in C11_refine_partial (a zero-size register is the known finding D22)"],
         "level_text": "Lean theorems (Props/C11.lean): Sym::finish factors through the event list of the block queue; each statement kind contributes exactly its event (an `if` ALWAYS its own cond event, never merged into a preceding unconditional block; measure and reset their own events; barrier nothing); a cond event applies its operator iff get_by_mask of the condition register equals the value; storeBits changes exactly the paired classical bits (set / xor mode); the interpreter's masks are the reference masks; and the whole pipeline Interp.new -> Sym.finish equals the statement-by-statement reference execution (Spec.refRun) on final state, classical register and remaining draws, for every accepted program with positive register sizes, both measurement modes, user-defined gates included (C11_refine_partial; the unrestricted statement is false because of D22 and is kept in a comment with its counterexample). Tied to the code by the intnu suite (random programs mixing gates, measure in bit and register form, if on any register / value / position, reset of bits and registers, barriers): interpreter state and execution compared with the model for the logged outcomes, and with the reference semantics.",
         "level_note": "Trusted: Lean kernel + standard axioms; model of int/mod.rs, ext_op.rs, sym.rs (after the D11/D12 repairs). reset statistics (C11 'does not change the outcome statistics of other qubits') follow from reset = measure + X and C07_chain.",
-        "technique": tech_tie("classical-bit set / xor / reset / get_by_mask functions, reset_by_mask / measure_mask and the block queue (Op::push, Op::append) are"),
+        "technique": tech_tie("classical-bit set / xor / reset / get_by_mask functions, reset_by_mask / measure_mask, the block queue, its execution (Sym::finish) and the measure / reset / barrier statements of the interpreter are"),
         "design_ref": "DESIGN.md section 5, C11 and Appendix B",
     },
     "C12": {
@@ -132,7 +138,7 @@ PROPS = {
     },
     "C17": {
         "modules": ["Qvnt.Props.C17"],
-        "tie": [tie2(r"extop_(push|append)_eq|sym_(finish|step|reset)_eq|finish_as_foldlM", r"UNSUPPORTED (ext_op\.rs|sym\.rs)", creg=True)],
+        "tie": [tie2(r"extop_(push|append)_eq|sym_(finish|step|reset)_eq|finish_as_foldlM", r"UNSUPPORTED (ext_op\.rs|sym\.rs)", creg=True), tie3(r"int_(append|prepend)_int_eq", r"UNSUPPORTED mod\.rs: qasm/int/mod\.rs::(append_int|prepend_int):")],
         "suites": [suite("c17", dict(count=300), dict(count=10000))],
         "mismatch_tags": INT_STRUCT,
         "spec_tags": [r"isame", r"iexpect\.asts"],
@@ -140,19 +146,20 @@ PROPS = {
         "assumptions": ASSUME_COMMON,
         "level_text": "Lean theorems (Props/C17.lean, 15): processing a concatenation is processing the parts in turn; adding chunks one by one (add_ast, or ast_changes + append_int: the same function in the model after the repairs) is accepted iff the whole text is, fails with the same error, and yields an interpreter with equal registers, gate definitions, measurement mode and an observationally equivalent block queue (equal runs for every outcome stream); the record of accepted chunks lists each chunk once, in order; running is invariant under that equivalence; reset after a run restores exactly Sym::new, so re-running reproduces the run from |0...0>. Tied to the code by the c17 suite: every program is fed whole, chunk by chunk through add_ast, and through ast_changes + append_int (1..5 chunks, with and without xor mode), executed with the same seed and compared on final state and classical register; chunk counts checked; reset+finish and init compared with the first run.",
         "level_note": "Trusted: Lean kernel + standard axioms; model of add_ast / ast_changes / append_int (after the D18/D19 repairs), ext_op.rs append/push, sym.rs.",
-        "technique": tech_tie("block queue (ext_op.rs: Op::push, Op::append) is"),
+        "technique": tech_tie("block queue (Op::push, Op::append), append_int / prepend_int and Sym::finish / reset are"),
         "design_ref": "DESIGN.md section 5, C17 and Appendix B",
     },
     "C18": {
         "modules": ["Qvnt.Props.C18"],
+        "tie": [tie3(r"int_(append|prepend)_int_eq|int_process_(qreg|creg)_eq", r"UNSUPPORTED mod\.rs: qasm/int/mod\.rs::(append_int|prepend_int|process_(qreg|creg)):")],
         "suites": [suite("c18", dict(count=400), dict(count=12000))],
         "mismatch_tags": [r"iadd\.(result|summary|blocks?\d*|tail)", r"inew.*"],
         "spec_tags": [r"iunchanged", r"isame", r"iexpect\.plant"],
-        "trusted_base": TB_COMMON,
+        "trusted_base": [TB_TIE2] + TB_COMMON,
         "assumptions": ASSUME_COMMON + ["the theorem is immediate for a model that interprets a chunk into a delta and commits on success; its weight is on the correspondence, which shows that the real add_ast behaves like that model for failing chunks with the error after 0..7 accepted statements (also new registers / gate definitions) and for the continuation"],
         "level_text": "Lean theorems (Props/C18.lean): a rejected chunk returns the session unchanged and a later chunk behaves as if the attempt never happened (C18_rollback, C18_continue); statements before the failing one leave nothing behind (C18_prefix_discarded); the computed changes depend only on the session's registers and gate definitions. Tied to the code by the c18 suite: session, snapshot, failing chunk (20 kinds of violation after a prefix of good statements incl. fresh registers and gate definitions), check that Debug-level summary of the session is identical to the snapshot, then a continuation chunk, executed and compared with a session that never saw the failing chunk.",
         "level_note": "Trusted: Lean kernel + standard axioms; model of add_ast (after the D19 repair).",
-        "technique": TECH,
+        "technique": tech_tie("commit step append_int and the declaration functions are"),
         "design_ref": "DESIGN.md section 5, C18",
     },
     "C19": {
@@ -185,7 +192,7 @@ PROPS = {
     },
     "C10": {
         "modules": ["Qvnt.Props.C10"],
-        "tie": [tie2(r"extop_(push|append)_eq|sym_(finish|step|reset)_eq|finish_as_foldlM", r"UNSUPPORTED (ext_op\.rs|sym\.rs)", creg=True)],
+        "tie": [tie2(r"extop_(push|append)_eq|sym_(finish|step|reset)_eq|finish_as_foldlM", r"UNSUPPORTED (ext_op\.rs|sym\.rs)", creg=True), tie3(r"int_get_[qc]_idx_eq|fold_idx_eq|int_branch(_with_id)?_eq|int_process_(qreg|creg|barrier|opaque)_eq", r"UNSUPPORTED mod\.rs: qasm/int/mod\.rs::(get_idx_by_alias|get_[qc]_idx_with_context|branch|branch_with_id|process_(qreg|creg|barrier|opaque)):")],
         "suites": [suite("int", dict(count=500), dict(count=15000)), suite("c10e", dict(count=300), dict(count=6000)),
                    suite("c10f", dict(count=400), dict(count=12000))],
         "mismatch_tags": INT_STRUCT,
@@ -194,19 +201,20 @@ PROPS = {
         "assumptions": ASSUME_COMMON + ["text -> AST (crate qvnt-qasm) and expression text -> RPN (crate meval) are external and not modelled: the model starts from the AST / RPN the real crates produced; the intended value of generated expressions is known to the generator and compared with what the pipeline applied"],
         "level_text": "Lean theorems (Props/C10.lean, 20): bit k of the alias mask is set iff the k-th declared (qu)bit belongs to that register, a register declared after `pre` occupies bits pre.length .. pre.length+n-1 and r[i] resolves to 2^(offset+i), distinct (qu)bits are disjoint; every accepted gate statement changes the queue by exactly one push of its operator and nothing else, measure/reset by exactly one separator block, barrier/declarations not at all, and statements compose in program order; one level of a user-defined gate is its body with formal qubits and parameters substituted, in body order. Tied to the code by the int suite (random programs with several registers, interleaved cregs, parameterised nested gate definitions, expression trees): interpreter state and executed result compared with the model, and the executed result compared with the statement-by-statement reference semantics (Spec/RefSem); by the c10f suite: programs with nested, repeatedly called and built-in-shadowing user gates are run against their flattened form (every expansion done by the generator with the actual qubits and parameter values) through the implementation itself, final states must agree.",
         "level_note": "Trusted: Lean kernel + standard axioms; hand-written model of int/mod.rs, macros.rs, parse.rs (RPN evaluation); external parsers as stated.",
-        "technique": tech_tie("block queue (ext_op.rs: Op::push, Op::append) is"),
+        "technique": tech_tie("block queue (Op::push, Op::append), its execution (Sym::finish), and the interpreter's declarations / argument resolution / queue separators (check_*, process_qreg, process_creg, get_*_idx_with_context, branch) are"),
         "design_ref": "DESIGN.md section 5, C10",
     },
     "C13": {
         "modules": ["Qvnt.Props.C13"],
+        "tie": [tie3(r"int_check_(ident|reg_size|dup)_eq|int_process_(qreg|creg|measure|reset)_eq|int_get_[qc]_idx_eq|fold_idx_eq", r"UNSUPPORTED mod\.rs: qasm/int/mod\.rs::(check_(ident|reg_size|dup)|process_(qreg|creg|measure|reset)|get_[qc]_idx_with_context|get_idx_by_alias):")],
         "suites": [suite("c13", dict(count=600), dict(count=20000))],
         "mismatch_tags": [r"iadd\.result"],
         "spec_tags": [r"iexpect\..*"],
-        "trusted_base": TB_COMMON,
+        "trusted_base": [TB_TIE2] + TB_COMMON,
         "assumptions": ASSUME_COMMON + ["statements the external parser itself rejects (e.g. a measure inside a gate body) surface as parse errors and are outside the model"],
         "level_text": "Lean theorems (Props/C13.lean, 52): the first error wins and nothing after it is looked at (a planted violation at any position is reported whatever follows); for each rule an iff-characterisation of when processNode returns that error with its exact payload and in which order the checks apply - undeclared / out-of-range register arguments, declaration limits (identifier length, register size, total size) and duplicates, measure size mismatch, non-gate under if, gate-body rules, unknown gate, register / parameter arity, control overlap, first unbound name in an expression; acceptance: a statement with no error condition is accepted and conversely (for programs using built-in gates). Tied to the code by the c13 suite: well-formed programs with exactly one planted violation (20 kinds) at a random position, expected variant checked on the implementation and payloads compared with the model; the same program without the violation must be accepted.",
         "level_note": "Trusted: Lean kernel + standard axioms; hand-written model of the interpreter's checks. Known finding: a zero-size register does not reserve its name (qreg a[0]; qreg a[1]; is accepted).",
-        "technique": TECH,
+        "technique": tech_tie("static checks of declarations and argument resolution (check_ident, check_reg_size, check_dup, process_qreg, process_creg, get_*_idx_with_context, process_measure, process_reset) are"),
         "design_ref": "DESIGN.md section 5, C13",
     },
     "C15": {
@@ -219,7 +227,7 @@ PROPS = {
         "assumptions": ASSUME_COMMON + ["the theorem is over the reals with Real.cos / Real.sin; the implementation uses libm at f64"],
         "level_text": "Lean theorems (Props/C15.lean): for EVERY ascending list of selected bits (any 64-bit mask, contiguous or scattered) the circuit built by qft acts, on every state and index, as lam * DFT on the selected sub-register composed with the qubit reversal, and qft_swapped as lam * DFT, with |lam| = 1 and the identity on the other qubits; the swap layer is the reversal; each 'controlled RZ + RZ/2 on the control' pair is the controlled phase shift up to cis(-theta/4); qft followed by its dagger is the identity. Proved by radix-2 induction over the bit list (Lemmas/Dft*.lean) on top of Ctor.qft_apply (the model constructor builds exactly that circuit). Tied to the code by the dft suite: random masks and states, the implementation's output compared with the model and with the DFT matrix up to one global phase.",
         "level_note": "Trusted: Lean kernel + standard axioms; model of multi/qft.rs (after the D10 repair).",
-        "technique": tech_tie("Hadamard-layer constructor multi::h::h is"),
+        "technique": tech_tie("constructors multi::h::h, multi::qft::qft and qft_swapped are"),
         "design_ref": "DESIGN.md section 5, C15 and Appendix A",
     },
     "C14": {
